@@ -40,6 +40,7 @@ const (
 	opCorrupt  = "corrupt"
 	opDirs     = "crash_dirs"
 	opRestore  = "restore"
+	opYears    = "years_pass" // the clock jumps N years ahead (the cached certificate expires); the file is untouched
 )
 
 // JSON is the canonical form of a step.
@@ -49,7 +50,7 @@ func (s Step) JSON() string {
 		return fmt.Sprintf(`{"op":%q,"k":%d}`, s.Op, s.K)
 	case opCorrupt:
 		return fmt.Sprintf(`{"op":%q,"off":%d,"xor":%d}`, s.Op, s.Off, s.Xor)
-	case opDirs:
+	case opDirs, opYears:
 		return fmt.Sprintf(`{"op":%q,"n":%d}`, s.Op, s.N)
 	}
 	return fmt.Sprintf(`{"op":%q}`, s.Op)
@@ -61,7 +62,7 @@ func (s Step) String() string {
 		return fmt.Sprintf("%s k=%d", s.Op, s.K)
 	case opCorrupt:
 		return fmt.Sprintf("%s off=%d xor=0x%02x", s.Op, s.Off, s.Xor)
-	case opDirs:
+	case opDirs, opYears:
 		return fmt.Sprintf("%s n=%d", s.Op, s.N)
 	}
 	return s.Op
@@ -158,8 +159,8 @@ func enumCase(n int64, thorough bool) (cfg Config, steps []Step, ok bool) {
 func randomCase(rng *simkit.RNG) (Config, []Step) {
 	cfg := Config{Kind: "random", Depth: rng.Intn(MaxDepth + 1)}
 	n := rng.Range(2, 8)
-	ops := []string{opBoot, opNoCache, opDelete, opPrefix, opZeroTail, opCorrupt, opDirs, opRestore}
-	weights := []int{34, 8, 10, 12, 5, 13, 6, 12}
+	ops := []string{opBoot, opNoCache, opDelete, opPrefix, opZeroTail, opCorrupt, opDirs, opRestore, opYears}
+	weights := []int{34, 8, 10, 12, 5, 13, 6, 12, 6}
 	var steps []Step
 	for i := 0; i < n-1; i++ {
 		s := Step{Op: ops[rng.Pick(weights)]}
@@ -173,6 +174,8 @@ func randomCase(rng *simkit.RNG) (Config, []Step) {
 			s.Xor = rng.Range(1, 255)
 		case opDirs:
 			s.N = rng.Intn(cfg.Depth + 1)
+		case opYears:
+			s.N = []int{1, 9, 11, 40}[rng.Intn(4)]
 		}
 		steps = append(steps, s)
 	}
